@@ -362,9 +362,9 @@ def _evaluate_quick(case):
     if not ms.finite:
         return discard('nonfinite_compliance', ['kind:quick'])
     kw = tc.single_kwargs(su, b, derivatives=False)
+    retries0 = tc.TRANSIENT_RETRIES['count']
     try:
-        with repo_call('quick_tidal_dissipation'):
-            res = quick_tidal_dissipation(**kw)
+        res = tc.call_repo('quick_tidal_dissipation', quick_tidal_dissipation, **kw)
     except RepoRaised as e:
         # KF-C10-zero-dissipation-q / KF-C10-newton-zero-frequency: collapse_modes raises ZeroDivisionError when no
         # mode dissipates or the Newton compliance is 0 at a zero-frequency mode.  Those are C10's findings (heating
@@ -372,6 +372,8 @@ def _evaluate_quick(case):
         if tc.known_exception_class(b, ms, e.exc) is None:
             raise
         return discard('excluded_known_finding', ['kind:quick'])
+    if tc.TRANSIENT_RETRIES['count'] != retries0:
+        c.label('numba_transient_retry')
     loves = res['love_number_by_orderl']
     nontrivial = False
     for l in range(2, su.l_max + 1):
